@@ -33,13 +33,17 @@ func verifCheckStepLimit(s *session, sp flows.Sprint, before map[flows.RunUUID]i
 	if steps == max {
 		zzverif.Cover("at-limit")
 	}
-	if s.status == flows.SessionStatusFailed {
-		failure := false
-		for _, e := range sp.Events() {
-			if e.Type() == events.TypeFailure {
-				failure = true
-			}
+	failure := false
+	for _, e := range sp.Events() {
+		if e.Type() == events.TypeFailure {
+			failure = true
 		}
+	}
+	// "hitting the limit ends the session as failed with a failure event": a
+	// sprint that carries a failure event (the step limit's included) leaves
+	// the session failed, whichever run the failure stopped
+	zzverif.Assert(!failure || s.status == flows.SessionStatusFailed, "a sprint carries a failure event but the session did not end as failed")
+	if s.status == flows.SessionStatusFailed {
 		zzverif.Assert(failure, "session failed without a failure event")
 		for _, r := range s.runs {
 			zzverif.Assert(r.ExitedOn() != nil, "session failed but a run has not exited")
